@@ -70,6 +70,36 @@ func nlGen(g *G, tier string) []M {
 			}
 		}
 	}
+	// chains of several hops in lists whose root elements include identifiers that name no node:
+	// what counts is what can be reached, not how many identifiers have been seen
+	for _, op := range ops {
+		switch asStr(op["op"]) {
+		case "nodeGraph", "nodeDescendants":
+		default:
+			continue
+		}
+		if !g2.Chance(0.04) {
+			continue
+		}
+		hops := 3 + g2.Int(4)
+		nodes, edges := []any{}, []any{}
+		for i := 0; i <= hops; i++ {
+			nodes = append(nodes, M{"id": fmt.Sprintf("hop%d", i), "type": 0.0, "a": M{}})
+			if i > 0 {
+				edges = append(edges, M{"ty": float64(EdgeTypes[g2.Int(3)]), "src": fmt.Sprintf("hop%d", i-1), "tos": []any{fmt.Sprintf("hop%d", i)}})
+			}
+		}
+		roots := []any{"hop0", "ghost-root"}
+		if g2.Chance(0.5) {
+			roots = append(roots, "second-ghost")
+		}
+		g2.R.Shuffle(len(edges), func(i, j int) { edges[i], edges[j] = edges[j], edges[i] })
+		op["a"] = M{"nodes": nodes, "edges": edges, "roots": roots}
+		op["id"] = "hop0"
+		if asStr(op["op"]) == "nodeDescendants" {
+			op["depth"] = float64(hops + 2)
+		}
+	}
 	// a tenth of the extractions also as "extract, then add the fragment back to the list"
 	var back []M
 	for _, op := range ops {
